@@ -290,7 +290,7 @@ pub fn build_top_level_matcher(
     config: &mut Config,
 ) -> Result<Box<dyn Matcher>, Box<dyn Error>> {
     let mut regex_type = regex::RegexType::default();
-    let (_, top_level_matcher) = (build_matcher_tree(args, config, &mut regex_type, 0, false))?;
+    let (_, top_level_matcher) = (build_matcher_tree(args, config, &mut regex_type, 0, false, 0))?;
 
     // if the matcher doesn't have any side-effects, then we default to printing
     if !top_level_matcher.has_side_effects() {
@@ -450,7 +450,17 @@ fn build_matcher_tree(
     regex_type: &mut regex::RegexType,
     arg_index: usize,
     mut expecting_bracket: bool,
+    depth: usize,
 ) -> Result<(usize, Box<dyn Matcher>), Box<dyn Error>> {
+    // Parsing, evaluating and dropping the matcher tree are all recursive:
+    // thousands of nested parentheses would overflow the stack.
+    const MAX_NESTING_DEPTH: usize = 200;
+    if depth > MAX_NESTING_DEPTH {
+        return Err(From::from(
+            "invalid expression; parentheses are nested too deeply.",
+        ));
+    }
+
     let mut top_level_matcher = ListMatcherBuilder::new();
 
     // can't use getopts for a variety or reasons:
@@ -855,7 +865,7 @@ fn build_matcher_tree(
             }
             "(" => {
                 let (new_arg_index, sub_matcher) =
-                    build_matcher_tree(args, config, regex_type, i + 1, true)?;
+                    build_matcher_tree(args, config, regex_type, i + 1, true, depth + 1)?;
                 i = new_arg_index;
                 Some(sub_matcher)
             }
